@@ -32,6 +32,8 @@ const c17Rule = "accepted txs over every zoo key kind: (a) built by the repo's c
 
 func c17Ev() *harn.Collector {
 	ev := harn.For("C17").Rule(c17Rule)
+	ev.Floor("intake:sigaddrs-first", "tx", 0.3)
+	ev.Floor("intake:plain", "tx", 0.3)
 	ev.Assume("the block-sync path holds a transaction object freshly decoded from the serialized bytes (types.TransactionFromRawBytes) and never validated; the proposing path holds the object the validator filled")
 	return ev
 }
@@ -83,8 +85,10 @@ type c17Outcome struct {
 }
 
 // c17Eval applies the oracle to one serialized transaction.
-func c17Eval(raw []byte) (o c17Outcome) {
-	o.Verdict = runValidator(raw)
+func c17Eval(raw []byte) c17Outcome { return c17EvalMode(raw, intakePlain) }
+
+func c17EvalMode(raw []byte, mode intake) (o c17Outcome) {
+	o.Verdict = runValidatorMode(raw, mode)
 	if o.Verdict.Panic != "" || !o.Verdict.Accepted {
 		return o
 	}
@@ -189,7 +193,10 @@ func c17Judge(t *rapid.T, ev *harn.Collector, known bool, raw []byte, nontrivial
 		ev.Excluded()
 		return
 	}
-	o := c17Eval(raw)
+	// the signer set must not depend on whether GetSignatureAddresses() was called before validation (tx pool does)
+	mode := intake(uniR(t, 0, 1, "intake"))
+	o := c17EvalMode(raw, mode)
+	ev.Class("intake:" + mode.String())
 	if o.Verdict.Panic != "" {
 		t.Fatalf("C17: decoder/validator PANICKED (%s) on %s\nraw tx %x", o.Verdict.Panic, what, raw)
 	}
